@@ -10,6 +10,11 @@ use std::hash::{Hash, Hasher};
 use std::sync::atomic::{AtomicBool, AtomicU64, Ordering};
 use std::sync::{Arc, Mutex};
 
+/// set while the storm phase (wakers invoked by helper threads) is running:
+/// hang and crash reports must name the storm engine, because the same bytes
+/// decode to a different case there
+pub static STORM_PHASE: AtomicBool = AtomicBool::new(false);
+
 pub struct Eval {
     pub violations: Vec<Violation>,
     pub nontrivial: bool,
@@ -223,7 +228,7 @@ pub fn run(
                         "{{\"property\":{},\"config\":{},\"engine\":{},\"hang\":true,\"bytes\":{}}}\n",
                         jstr(prop),
                         jstr(config_name()),
-                        jstr(engine.name()),
+                        jstr(if STORM_PHASE.load(Ordering::SeqCst) { "storm" } else { engine.name() }),
                         jstr(&hex(&bytes))
                     ),
                 );
